@@ -1,7 +1,8 @@
 """Round-trip harnesses for src/serialization.py (C15).  Sidecar code: each function composes the REAL writer and the REAL
 reader; pyvc inlines the real bodies (they are `transparent`) and proves the postcondition for all values."""
 import sys
-sys.path.insert(0, "/repo")
+from pyvc import front
+sys.path.insert(0, front.REPO)
 from pyvc.streams import new_stream, utf8len  # noqa
 from src.serialization import *  # noqa
 
